@@ -25,7 +25,7 @@ for k in $(seq 0 $((N - 1))); do
       if python3 -c "import json,sys; sys.exit(0 if json.load(open('$d/meta.json')).get('obsolete') else 1)"; then echo "$n obsolete (skipped)" >> /verif/.build/seedpar.log; continue; fi
       p=$(python3 -c "import json,sys; m=json.load(open(sys.argv[1])); print(m.get('caught_by') or m['property'])" $d/meta.json)
       git -C $W/$k/repo apply $d/patch.diff 2>/dev/null || { echo "$n: patch does not apply" >> /verif/.build/seedpar.log; continue; }
-      out=$(cd /verif && VERIF_REPO=$W/$k/repo VERIF_BUILD=$W/$k/build VERIF_LEAN=$W/$k/lean VERIF_NO_EVIDENCE=1 ./check $p --tier quick 2>&1); rc=$?
+      out=$(cd /verif && VERIF_SEED=${SEEDPAR_SEED:-1} VERIF_REPO=$W/$k/repo VERIF_BUILD=$W/$k/build VERIF_LEAN=$W/$k/lean VERIF_NO_EVIDENCE=1 ./check $p --tier quick 2>&1); rc=$?
       nv=$(echo "$out" | grep -c "^VIOLATION"); nf=$(echo "$out" | grep -c "no-failing-input-found")
       echo "$n ($p) rc=$rc violations=$nv (no-failing-input-found: $nf)" >> /verif/.build/seedpar.log
       git -C $W/$k/repo checkout -- . ; git -C $W/$k/repo clean -qfd src
